@@ -244,16 +244,24 @@ def subsetsOfSize : Nat → List Nat → List (List Nat)
   | _ + 1, [] => []
   | k + 1, x :: xs => (subsetsOfSize k xs).map (x :: ·) ++ subsetsOfSize (k + 1) xs
 
-/-- smallest set of repairs under which the model gives the reference answer (or rejects the program) -/
-def explain (p : Prog) (fuel idx : Nat) (t : List Arg) : String :=
+def fixesToSet (fx : Fixes) : List Nat :=
+  (List.range 9).filter fun i =>
+    match i with
+    | 0 => fx.frame | 1 => fx.ifJump | 2 => fx.orPop | 3 => fx.range | 4 => fx.shadow
+    | 5 => fx.forClause | 6 => fx.assignOp | 7 => fx.ifInit | _ => fx.argSig
+
+/-- smallest set of *further* repairs, on top of the variant `base` the code is compared with, under which the
+model gives the reference answer (or rejects the program); `agree` when `base` itself gives it -/
+def explain (base : Fixes) (p : Prog) (fuel idx : Nat) (t : List Arg) : String :=
   let want := showSpec (SpecC04.run (specProg p) fuel idx (t.map valOfArg))
   if want == "fuel" || want == "stuck" || want == "unsup" then "n/a:" ++ want else
-  if modelAnswer Fixes.asis p fuel idx t == want then "agree" else
-  let cands := (subsetsOfSize 1 (List.range 9)) ++ (subsetsOfSize 2 (List.range 9)) ++
-               (subsetsOfSize 3 (List.range 9)) ++ [List.range 9]
-  match cands.find? (fun s => let a := modelAnswer (fixesOfSet s) p fuel idx t; a == want || a == "cerr") with
+  if modelAnswer base p fuel idx t == want then "agree" else
+  let on := fixesToSet base
+  let off := (List.range 9).filter (fun i => !on.contains i)
+  let cands := (subsetsOfSize 1 off) ++ (subsetsOfSize 2 off) ++ (subsetsOfSize 3 off) ++ [off]
+  match cands.find? (fun s => let a := modelAnswer (fixesOfSet (on ++ s)) p fuel idx t; a == want || a == "cerr") with
   | some s =>
-    let a := modelAnswer (fixesOfSet s) p fuel idx t
+    let a := modelAnswer (fixesOfSet (on ++ s)) p fuel idx t
     "+".intercalate (s.map fun i => fixNames.getD i "?") ++ (if a == "cerr" then ":rejected" else "")
   | none => "unexplained"
 
@@ -280,12 +288,13 @@ def handle : List String → Option String
     let p ← progOf (← parseSExp (" ".intercalate rest))
     let sp := specProg p
     pure (" | ".intercalate (tuples.map fun t => showSpec (SpecC04.run sp fuel idx (t.map valOfArg))))
-  | "qexplain" :: fuel :: idx :: args :: rest => do
+  | "qexplain" :: fx :: fuel :: idx :: args :: rest => do
+    let fx ← fixesOf fx
     let fuel ← fuel.toNat?
     let idx ← idx.toNat?
     let t ← argsOf args
     let p ← progOf (← parseSExp (" ".intercalate rest))
-    pure (explain p fuel idx t)
+    pure (explain fx p fuel idx t)
   | "qcompile" :: fx :: rest => do
     let fx ← fixesOf fx
     let p ← progOf (← parseSExp (" ".intercalate rest))
